@@ -136,6 +136,9 @@ func keepBodies(filename string) bool {
 		}
 		return false
 	}
+	if strings.HasSuffix(filename, "/src/fmt/errors.go") {
+		return true // wrapError.Error/Unwrap
+	}
 	if i := strings.Index(filename, "/src/"); i >= 0 && !has("/pkg/mod/") {
 		pkg := filepath.Dir(filename[i+5:])
 		switch pkg {
